@@ -166,7 +166,7 @@ Proof.
     set (W1 := fold_left dec_unit_start (firstn (f_pos f) (f_units f)) W0) in *.
     assert (E01 : eff W W1 [f]) by (apply (eff_mono _ _ _ _ M); exact (eff_trans W W0 W1 [f] [f] E0 E1)).
     destruct (svc_refused W1 f).
-    + pose proof (fold_eff (dec_unit_stop cfg) f (fun W u Hu => dec_unit_stop_eff cfg W f u Hu) (firstn (f_pos f) (f_units f)) W1 FN) as E2.
+    + pose proof (fold_eff (stop_if_running cfg) f (fun W u Hu => stop_if_running_eff cfg W f u Hu) (f_units f) W1 (fun u H => H)) as E2.
       cbv zeta. apply (eff_mono _ _ _ _ M). eapply eff_trans; [exact E01|].
       destruct E2 as [[rs [E2 P]] R]. split; [exists rs; split; [exact E2|exact P]|exact R].
     + cbv zeta. apply (svc_register_eff _ _ f) in E01. destruct E01 as [[rs [E2 P]] R]. split; [exists rs; split; [exact E2|exact P]|exact R].
@@ -379,6 +379,8 @@ Proof.
   intros H us. induction us as [|a r IH]; intros W; cbn [fold_left]; [repeat split; reflexivity|].
   destruct (H W a) as [A1 [A2 A3]]. destruct (IH (g W a)) as [B1 [B2 B3]]. repeat split; congruence.
 Qed.
+Lemma stop_if_running_tbl cfg W u : tbl W (stop_if_running cfg W u).
+Proof. unfold stop_if_running. destruct (memn (u_id u) (w_running W)); repeat split; reflexivity. Qed.
 Lemma ctx_start_func_tables cfg W f : w_funcs (ctx_start_func cfg W f) = w_funcs W /\ w_next (ctx_start_func cfg W f) = w_next W /\
   forall x, In x (w_active (ctx_start_func cfg W f)) -> In x (w_active W).
 Proof.
@@ -389,19 +391,21 @@ Proof.
     + destruct (tbl_fold dec_unit_start (fun W u => conj eq_refl (conj eq_refl eq_refl)) (firstn (f_pos f) (f_units f)) W0) as [A1 [A2 A3]].
       set (W1 := fold_left dec_unit_start (firstn (f_pos f) (f_units f)) W0) in *.
       destruct (svc_refused W1 f).
-      * destruct (tbl_fold (dec_unit_stop cfg) (fun W u => conj eq_refl (conj eq_refl eq_refl)) (firstn (f_pos f) (f_units f)) W1) as [B1 [B2 B3]].
+      * destruct (tbl_fold (stop_if_running cfg) (fun W u => stop_if_running_tbl cfg W u) (f_units f) W1) as [B1 [B2 B3]].
         cbv zeta. wsimpl. rewrite B1, B2, B3, A1, A2, A3. repeat split. intros x Hx. apply In_deln in Hx. tauto.
-      * cbv zeta. destruct (svc_register_fields W1 f) as [[F [Nx _]] [SA _]]. wsimpl. rewrite F, Nx, SA, A1, A2, A3. repeat split. auto.
+      * cbv zeta. destruct (svc_register_fields W1 f) as [[F _] [SA _]]. pose proof (svc_register_next W1 f) as Nx. wsimpl. rewrite F, Nx, SA, A1, A2, A3. repeat split. auto.
     + destruct (tbl_fold dec_unit_start (fun W u => conj eq_refl (conj eq_refl eq_refl)) (f_units f) W0) as [A1 [A2 A3]].
       rewrite A1, A2, A3. repeat split. auto.
   - unfold leg_func_start. destruct (tbl_fold leg_unit_start (fun W u => conj eq_refl (conj eq_refl eq_refl)) (f_units f) W0) as [A1 [A2 A3]].
     rewrite A1, A2, A3. repeat split. auto.
 Qed.
 
-Lemma define_tables cfg c n s W : exists fnew, w_funcs (define cfg c n s W) = w_funcs W ++ [fnew] /\ f_gen fnew = w_next W /\
+Lemma define_tables cfg c n s W :
+  (w_funcs (define cfg c n s W) = w_funcs W \/
+   exists fnew, w_funcs (define cfg c n s W) = w_funcs W ++ [fnew] /\ f_gen fnew = w_next W) /\
   w_next W <= w_next (define cfg c n s W) /\
   (forall x, In x (w_active (define cfg c n s W)) -> In x (w_active W) \/ x = w_next W) /\
-  exists fs, eff W (define cfg c n s W) fs /\ forall f, In f fs -> f = fnew.
+  exists fs, eff W (define cfg c n s W) fs /\ forall f, In f fs -> In f (w_funcs (define cfg c n s W)) /\ f_gen f = w_next W.
 Proof.
   unfold define.
   set (gen := w_next W).
@@ -410,27 +414,30 @@ Proof.
   set (Wf := {| w_led := w_led W; w_funcs := w_funcs W ++ [f]; w_active := w_active W; w_delayed := w_delayed W;
                 w_pending := w_pending W; w_zombie := w_zombie W; w_running := w_running W; w_starting := w_starting W;
                 w_hdl := w_hdl W; w_auto := w_auto W; w_next := gen + 1 + N.of_nat (length units); w_log := w_log W |}).
-  exists f. cbv zeta.
+  cbv zeta.
   assert (EF : eff W Wf []) by (apply eff_same; reflexivity).
   destruct (negb n && svc_refused Wf f).
-  { split; [reflexivity|split; [reflexivity|split; [cbn; lia|split; [auto|]]]]. exists []. split; [exact EF|intros f' []]. }
+  { split; [left; reflexivity|split; [cbn; lia|split; [auto|]]]. exists []. split; [apply eff_same; reflexivity|intros f' []]. }
   set (Ws := if n then Wf else svc_register Wf f).
   assert (XS : w_funcs Ws = w_funcs Wf /\ w_next Ws = w_next Wf /\ w_active Ws = w_active Wf /\ eff W Ws []).
   { unfold Ws. destruct n; [split; [reflexivity|split; [reflexivity|split; [reflexivity|exact EF]]]|].
-    destruct (svc_register_fields Wf f) as [[F [Nx _]] [SA _]]. split; [exact F|split; [exact Nx|split; [exact SA|apply svc_register_eff; exact EF]]]. }
+    destruct (svc_register_fields Wf f) as [[F _] [SA _]].
+    split; [exact F|split; [apply svc_register_next|split; [exact SA|apply svc_register_eff; exact EF]]]. }
   destruct XS as [F1 [N1 [A1 E1]]].
   set (W1 := set_delayed (set_active Ws (w_active Ws ++ [gen])) (w_delayed Ws ++ [gen])).
   assert (E2 : eff W W1 []) by (destruct E1 as [[rs [E P]] R]; split; [exists rs; split; [exact E|exact P]|exact R]).
   assert (AC1 : forall x, In x (w_active W1) -> In x (w_active W) \/ x = gen).
   { intros x Hx. unfold W1 in Hx. wsimpl. rewrite A1 in Hx. apply in_app_or in Hx. destruct Hx as [Hx|[<-|[]]]; auto. }
+  assert (FW1 : w_funcs W1 = w_funcs W ++ [f]) by (unfold W1; wsimpl; rewrite F1; reflexivity).
+  assert (NW1 : w_next W <= w_next W1) by (unfold W1; wsimpl; rewrite N1; cbn; lia).
   destruct (memn c (w_auto W)).
-  - destruct (ctx_start_func_tables cfg W1 f) as [T1 [T2 T3]]. rewrite T1, T2. unfold W1 at 1 2. wsimpl. rewrite F1, N1.
-    split; [reflexivity|split; [reflexivity|split; [cbn; lia|split]]].
+  - destruct (ctx_start_func_tables cfg W1 f) as [T1 [T2 T3]]. rewrite T1, T2.
+    split; [right; exists f; split; [exact FW1|reflexivity]|split; [exact NW1|split]].
     + intros x Hx. apply AC1. apply T3. exact Hx.
     + destruct (ctx_start_func_eff cfg W1 f) as [fs [E P]]. exists fs. split.
       * apply (eff_mono _ _ ([] ++ fs)); [intros x Hx; exact Hx|]. eapply eff_trans; [exact E2|exact E].
-      * intros f' Hf'. apply P. exact Hf'.
-  - unfold W1 at 1 2. wsimpl. rewrite F1, N1. split; [reflexivity|split; [reflexivity|split; [cbn; lia|split; [exact AC1|]]]].
+      * intros f' Hf'. destruct (P f' Hf') as [-> _]. split; [rewrite FW1; apply in_or_app; right; left; reflexivity|reflexivity].
+  - split; [right; exists f; split; [exact FW1|reflexivity]|split; [exact NW1|split; [exact AC1|]]].
     exists []. split; [exact E2|intros f' []].
 Qed.
 
@@ -451,9 +458,9 @@ Proof.
     exists fs. split; [exact E|]. intros f Hf. destruct (P f Hf) as [X Y]. split; [rewrite F; exact X|left; exact Y]. }
   destruct o; cbn [is_occ] in NO; try discriminate; cbn [step].
   - (* define *)
-    destruct (define_tables cfg c newsys s W) as [fnew [F [G [Nx [A [fs [E P]]]]]]].
-    split; [right; exists fnew; split; assumption|split; [exact Nx|split; [exact A|]]].
-    exists fs. split; [exact E|]. intros f Hf. rewrite (P f Hf). split; [rewrite F; apply in_or_app; right; left; reflexivity|right; exact G].
+    destruct (define_tables cfg c newsys s W) as [F [Nx [A [fs [E P]]]]].
+    split; [exact F|split; [exact Nx|split; [exact A|]]].
+    exists fs. split; [exact E|]. intros f Hf. destruct (P f Hf) as [X Y]. split; [exact X|right; exact Y].
   - destruct (dropped_inv cfg g W AO HI) as [_ [[T1 T2] S]]. apply FromA; try assumption. apply dropped_eff.
   - apply FromA; try reflexivity; [auto|]. exists []. split; [apply eff_same; reflexivity|intros f []].
   - destruct (ctx_start_inv cfg c W AO HI) as [_ [[T1 T2] S]]. apply FromA; try assumption. apply ctx_start_eff; assumption.
